@@ -1,6 +1,7 @@
 use crate::engine::{Check, Ctx, Report};
 use serde_json::Value as J;
 
+pub mod c01;
 pub mod c07;
 pub mod c13;
 pub mod c14;
@@ -16,6 +17,7 @@ pub struct Property {
 
 pub fn all() -> Vec<Property> {
     vec![
+        Property { id: "C01", run: c01::run, replay: c01::replay },
         Property { id: "C07", run: c07::run, replay: c07::replay },
         Property { id: "C13", run: c13::run, replay: c13::replay },
         Property { id: "C14", run: c14::run, replay: c14::replay },
